@@ -503,7 +503,7 @@ func (s *stepper) judgeReturn() (string, string) {
 	}
 	quiet := s.retAt.Sub(ref)
 	if s.wantHooks {
-		return "violation", fmt.Sprintf("listener returned although no timer func was released for it (%s after the last close)",
+		return "violation", fmt.Sprintf("listener returned although the specification keeps it serving after this step (every timer func is gated; %s after the last close)",
 			s.retAt.Sub(s.lastQuiet).Round(time.Millisecond))
 	}
 	if quiet < idleTimeout-5*time.Millisecond {
@@ -521,7 +521,7 @@ func (s *stepper) judgeClosed() (string, string) {
 		return "violation", fmt.Sprintf("listener stopped listening while served connection %d was open", id)
 	}
 	if s.wantHooks {
-		return "violation", "listener stopped listening although no timer func was released for it"
+		return "violation", "listener stopped listening although the specification keeps it listening after this step (every timer func is gated)"
 	}
 	return "skip", "unrealisable: the replay stalled and the idle timeout may legitimately have expired before a connection was registered"
 }
